@@ -181,7 +181,9 @@ def md_dict(n):
     d = {}
     if n.get('prio') is not None:
         d['priority'] = n['prio']
-    if n.get('del') is not None:
+    if n.get('vdel'):
+        d['delete'] = True
+    elif n.get('del') is not None:
         d['delete'] = n['del']
     if n.get('new') is not None:
         d['allow_new'] = n['new']
@@ -212,8 +214,6 @@ def md_suffix(n, d=None):
 
 def tag_of(n):
     """tag text for an ordinary (map/seq/scalar) node, '' if none"""
-    if n.get('vdel'):
-        return '!del'
     d = md_dict(n)
     if not d:
         return ''
@@ -285,7 +285,7 @@ def flow(n, erase=False, in_seq=False):
         body = '[' + ', '.join(flow(c, erase, True) for c in n['items']) + ']'
     else:
         if n.get('vdel'):
-            return 'null' if erase else '!del '
+            return 'null' if erase else tag + ' '
         body = scalar_text(n['v'], n.get('style'), n.get('nf'))
         if body == '' and in_seq:
             body = '~'
